@@ -1,16 +1,38 @@
-(* C24 — correspondence. *)
+(* C24 — correspondence. Two kinds of cases: transaction schedules (committed database dumped
+   after every statement) and branch merges with forced commit (recorded violations). *)
 From Coq Require Import NArith List Bool.
 From Dolt Require Import C23.Model C23.Corr C24.Model C24.Spec.
 Import ListNotations.
 Local Open Scope N_scope.
 
-Definition input := C23.Corr.input.
-(* per step: statement result, committed table right after it, number of rows in dolt_constraint_violations *)
-Record obs := { o_steps : list (sobs * list (N * cell * cell) * N) }.
+Record input := {
+  i_base : C23.Corr.input;       (* key universe, initial rows, autocommit sessions, schedule *)
+  i_merge : bool;                (* branch-merge case? *)
+  i_left : list stmt;            (* statements on main *)
+  i_right : list stmt            (* statements on the other branch *)
+}.
+
+Record obs := {
+  o_steps : list (sobs * list (N * cell * cell) * N);   (* result, committed dump, #violation rows *)
+  o_merr : N;                                            (* merge: 0 ok, 5 conflicts, else error *)
+  o_merged : list (N * cell * cell);
+  o_vrows : list (N * N)                                 (* recorded (violation type, key) *)
+}.
 Definition case := (input * obs)%type.
 
 Definition model_obs (i : input) : obs :=
-  {| o_steps := map (fun x => (fst x, snd x, 0)) (fst (crun (i_U i) (i_sched i) (world0 (i_init i) (i_autos i)))) |}.
+  let b := i_base i in
+  let U := i_U b in
+  if i_merge i then
+    let t0 := table_of (i_init b) in
+    let '(ol, tl) := apply_stmts U (i_left i) t0 in
+    let '(orr, tr) := apply_stmts U (i_right i) t0 in
+    let '(m, c, v) := branch_merge U t0 tl tr in
+    {| o_steps := map (fun o => (o, [], 0)) (ol ++ orr);
+       o_merr := if c then 5 else 0; o_merged := dump U m; o_vrows := v |}
+  else
+    {| o_steps := map (fun x => (fst x, snd x, 0)) (fst (crun U (exec_c U) (i_sched b) (world0 (i_init b) (i_autos b))));
+       o_merr := 0; o_merged := []; o_vrows := [] |}.
 
 Fixpoint steps_eqb (x y : list (sobs * list (N * cell * cell) * N)) : bool :=
   match x, y with
@@ -18,13 +40,35 @@ Fixpoint steps_eqb (x y : list (sobs * list (N * cell * cell) * N)) : bool :=
   | (o, c, v) :: x', (o', c', v') :: y' => sobs_eqb o o' && rows_eqb c c' && (v =? v') && steps_eqb x' y'
   | _, _ => false
   end.
-Definition obs_eqb (x y : obs) : bool := steps_eqb (o_steps x) (o_steps y).
+Fixpoint pairs_eqb (x y : list (N * N)) : bool :=
+  match x, y with
+  | [], [] => true
+  | (a, b) :: x', (a', b') :: y' => (a =? a') && (b =? b') && pairs_eqb x' y'
+  | _, _ => false
+  end.
+Definition obs_eqb (x y : obs) : bool :=
+  steps_eqb (o_steps x) (o_steps y) && (o_merr x =? o_merr y)
+  && rows_eqb (o_merged x) (o_merged y) && pairs_eqb (o_vrows x) (o_vrows y).
 
-(* every committed state the implementation exposed satisfies PRIMARY KEY, UNIQUE and CHECK
-   (independent evaluation of the dumped rows), or violations are on record *)
+Definition mem_pair (p : N * N) (l : list (N * N)) : bool :=
+  existsb (fun q => (fst q =? fst p) && (snd q =? snd p)) l.
+
+(* The property on the implementation's observations.
+   Transactions: every committed database the implementation exposed satisfies PRIMARY KEY,
+   NOT NULL, CHECK, UNIQUE, FOREIGN KEY (independent evaluation of the dump), or violations are on record.
+   Merge (forced commit, no conflicts): every row of the merged database that breaks a constraint is
+   listed with that violation type in dolt_constraint_violations_<table> (recorded, not silently kept),
+   and the merged rows are the cell-wise merge of the two branches (nothing silently dropped). *)
 Definition oracle (i : input) (o : obs) : bool :=
-  Nat.eqb (length (o_steps o)) (length (i_sched i))
-  && forallb (fun x => let '(_, c, v) := x in rows_valid c || (0 <? v)) (o_steps o).
+  if i_merge i then
+    if o_merr o =? 0 then
+      pk_unique (o_merged o)
+      && forallb (fun v => mem_pair v (o_vrows o)) (viols_of_rows (o_merged o))
+      && rows_eqb (o_merged o) (o_merged (model_obs i))
+    else true
+  else
+    Nat.eqb (length (o_steps o)) (length (i_sched (i_base i)))
+    && forallb (fun x => let '(_, c, v) := x in rows_valid c || (0 <? v)) (o_steps o).
 
 Definition check_case (c : case) : N :=
   (if obs_eqb (model_obs (fst c)) (snd c) then 0 else 1)
